@@ -99,6 +99,8 @@ class RecSandbox(core.Sandbox):
             ctx.bump("arrival_order", configured=1)
         if any(("ino" in kv or "dev" in kv) for kv in plan.get("stat", {}).values()):
             ctx.bump("inode_renumbering", configured=1)
+        if any("dino" in kv for kv in plan.get("stat", {}).values()):
+            ctx.bump("mount_point_d_ino", configured=1, fired=1)
         if any((set(kv) - {"ino", "dev"}) for kv in plan.get("stat", {}).values()):
             ctx.bump("stat_overlay", configured=1)
         if plan.get("entropy") is not None:
